@@ -383,7 +383,7 @@ func Generate(p Profile, n int, seed int64) []Script {
 					}
 				}
 
-				if p.Mutations && rng.Intn(8) == 0 {
+				if p.Mutations && len(st.Rules) > 0 && rng.Intn(8) == 0 {
 					g.spoil(&st, sets)
 				}
 			}
